@@ -69,6 +69,10 @@ class Proxy:
         if name in SCALAR:
             sf = SCALAR[name]
             def wrapped(x, *a, **k):
+                import torch as _torch
+                from .core import Sym
+                if isinstance(x, Sym) and not a and not k and hasattr(_torch, name):
+                    return getattr(_torch, name)(x)      # math.log / np.log of a symbolic (0-dim) tensor: the tensor op (natively it goes through float())
                 if _is_scalar(x) and not a and not k:
                     return sf(x)
                 return f(x, *a, **k)
